@@ -227,7 +227,7 @@ def crate_view(prog, crate, known, max_blocks=200, max_callers=3):
     for h in c0.fns:
         if h.kind == "Closure" or h.path in known or h.path.startswith("<") or "::{" in h.path or "::tests::" in h.path:
             continue
-        if h.impl_trait or len(h.blocks) > max_blocks or len(h.blocks) <= 2:
+        if h.impl_trait or len(h.blocks) > max_blocks or len(h.blocks) < 1:
             continue
         n = cnt.get(h.path, 0)
         if 1 <= n <= max_callers:
